@@ -1967,8 +1967,8 @@ Proof.
       * rewrite Forall_forall in F2. destruct (F2 e He) as (x&cb&ud&u&ret&->). rewrite C2. eauto 10.
       * rewrite Forall_forall in F1. destruct (F1 e He) as (x&cb&ud&u&ret&->). rewrite C1. eauto 10.
   - destruct (spec_loop_trace sc KStanza sz (hids (rget KStanza R)) R1) as [e2 [L2 [S2 F2]]].
-    exists [], e2. cbn [app rev calls_of flat_map]. repeat split; auto.
-    + rewrite L2. unfold R1. rewrite g_log_r_enable. reflexivity.
+    exists [], e2. cbn [app rev calls_of flat_map].
+    unfold R1 in L2 at 2. rewrite g_log_r_enable in L2. repeat split; auto.
     + constructor.
     + constructor.
     + eapply subseq_nodup; eauto. apply (wf_nodup _ W).
